@@ -96,21 +96,27 @@ def static_gate(files=None):
     return problems
 
 
-def gen_makefile():
+def gen_makefile(tag="all"):
+    """one Makefile per property tag, so that concurrent checks of different properties never rewrite
+    each other's Makefile; every Makefile knows all .v files (dependencies across directories)"""
     files = v_files()
     proj = "-R . PV\n" + "\n".join(files) + "\n"
-    pth = os.path.join(COQ, "_CoqProject")
+    pth = os.path.join(COQ, "_CoqProject." + tag)
+    mk = "Makefile." + tag
     old = open(pth).read() if os.path.exists(pth) else ""
-    if old != proj or not os.path.exists(os.path.join(COQ, "Makefile")):
+    if old != proj or not os.path.exists(os.path.join(COQ, mk)):
         open(pth, "w").write(proj)
-        rc, out, _ = sh("coq_makefile -f _CoqProject -o Makefile", cwd=COQ, timeout=120)
+        rc, out, _ = sh("coq_makefile -f _CoqProject.%s -o %s" % (tag, mk), cwd=COQ, timeout=120)
         if rc != 0:
             raise RuntimeError("coq_makefile failed:\n" + out)
+    if tag == "all":
+        open(os.path.join(COQ, "_CoqProject"), "w").write(proj)
+    return mk
 
 
-def make_targets(targets, timeout=3000):
-    gen_makefile()
-    cmd = "timeout %d make -j%d %s" % (timeout, NCPU, " ".join(targets))
+def make_targets(targets, timeout=3000, tag="all"):
+    mk = gen_makefile(tag)
+    cmd = "timeout %d make -f %s -j%d %s" % (timeout, mk, NCPU, " ".join(targets))
     rc, out, wall = sh(cmd, cwd=COQ, timeout=timeout + 30)
     return rc, out, wall, "cd coq && " + cmd
 
@@ -198,7 +204,7 @@ def proof_step(prop):
     missing = [t for t in thms if t not in printed]
     if missing:
         res["failures"].append("theorems without Print Assumptions: %s" % missing)
-    rc, out, wall, cmd = make_targets(targets)
+    rc, out, wall, cmd = make_targets(targets, tag=prop)
     res["checker_cmd"] = cmd
     if rc != 0:
         tail = "\n".join(out.strip().split("\n")[-25:])
@@ -206,7 +212,7 @@ def proof_step(prop):
         res["failures"].append("make failed%s:\n%s" % ((" in %s line %s" % m[-1]) if m else "", tail))
         # Run.vo may still be buildable on its own (models carry no proofs)
         if len(targets) > 1:
-            make_targets([targets[1]])
+            make_targets([targets[1]], tag=prop)
         res["wall_s"] = time.time() - t0
         return res
     cmd2 = "timeout 900 coqc -R . PV %s/Props.v" % prop
